@@ -885,7 +885,17 @@ bintIsSmall(BInt b)
 long
 bintSmall(BInt b)
 {
-	return BIntToInt(b);
+	ULong	u = 0;
+	Length	i, sh;
+
+	if (IsImmed(b)) return BIntToInt(b);
+
+	/* A stored value that fits a long need not be immediate
+	 * (the immediate form has fewer bits than a long). */
+	for (i = 0, sh = 0; i < Placec(b) && sh < bitsizeof(ULong); i++, sh += BINT_LG_RADIX)
+		u |= ((ULong) Placev(b)[i]) << sh;
+
+	return (long) (IsNeg(b) ? 0 - u : u);
 }
 
 
